@@ -39,6 +39,7 @@ type Profile struct {
 	ID       uint `gorm:"primaryKey;autoIncrement:false"`
 	Bio      string
 	AuthorID *uint
+	Memo     string `gorm:"-"` // a field without a column on the target of a has-one relation
 }
 
 type Book struct {
@@ -54,6 +55,7 @@ type Review struct {
 	ID     uint `gorm:"primaryKey;autoIncrement:false"`
 	Stars  int
 	BookID *uint
+	Memo   string `gorm:"-"` // ... of a has-many relation
 }
 
 type Tag struct {
@@ -167,6 +169,7 @@ type Parcel struct {
 	CourierID *uint
 	CustomsID *uint
 	SorterID  *uint
+	Memo      string `gorm:"-:all"` // ... of the has-many / has-one relations of four owner types
 }
 
 type Depot struct {
